@@ -10,6 +10,8 @@ N = 8
 if "--scratch" in args:
     i = args.index("--scratch"); N = int(args[i + 1]); del args[i:i + 2]
 claimed = [c["property_id"] for c in json.load(open(os.path.join(VERIF, "MANIFEST.json")))["checks"]]
+if os.environ.get("BENIGN_CHECKS"):         # restrict to some checks (after a change to their rule modules only)
+    claimed = [c for c in claimed if c in os.environ["BENIGN_CHECKS"].split(",")]
 if "--worker" in args:
     i = args.index("--worker")
     repo, cache = args[i + 1], args[i + 2]
